@@ -22,7 +22,7 @@ type reqSpec struct {
 	Note   string
 	// Shape varies what a handler sees of the request BESIDES method and header fields: 0 = no body; 1 = a one-byte body
 	// with Content-Length 1; 2 = a chunked body (ContentLength -1); 3 = another URL path and query, Host and RemoteAddr;
-	// 4 = HTTP/1.0; 5 = HTTP/2; 6 = over TLS.
+	// 4 = HTTP/1.0; 5 = HTTP/2; 6 = over TLS; 7 / 8 = Host equal to the Origin's authority (plain / TLS); 9 = target `*`.
 	// None of it is covered by Vary, and none of it may matter to the middleware.
 	Shape int
 }
@@ -43,6 +43,20 @@ func (rs reqSpec) build() *http.Request {
 	case 6:
 		r.TLS = &tls.ConnectionState{}
 		r.URL.Scheme = "https"
+	case 7, 8:
+		// the request is addressed to the very authority its Origin names (what a same-origin request looks like), over
+		// plain HTTP (7) or TLS (8)
+		if o := r.Header.Get(hOrigin); strings.Contains(o, "://") {
+			r.Host = o[strings.Index(o, "://")+3:]
+			r.URL.Host = r.Host
+		}
+		if rs.Shape == 8 {
+			r.TLS = &tls.ConnectionState{}
+			r.URL.Scheme = "https"
+		}
+	case 9:
+		r.RequestURI = "*" // the asterisk-form request target (OPTIONS *)
+		r.URL.Path = "*"
 	}
 	return r
 }
@@ -197,7 +211,7 @@ func shapeProbes(rng *rand.Rand, s Sem) []reqSpec {
 	var out []reqSpec
 	for _, o := range []string{a, other} {
 		for _, acrm := range []string{"GET", "PUT", "NOSUCHMETHOD"} {
-			for shape := 0; shape <= 6; shape++ {
+			for shape := 0; shape <= 9; shape++ {
 				out = append(out, reqSpec{Method: "OPTIONS", H: http.Header{hOrigin: {o}, hACRM: {acrm}}, Shape: shape})
 			}
 			// request header fields that Vary does NOT name (Fetch metadata, content negotiation, credentials, upgrade): two
@@ -222,9 +236,13 @@ func shapeProbes(rng *rand.Rand, s Sem) []reqSpec {
 				}
 			}
 		}
-		for shape := 0; shape <= 6; shape++ {
+		for shape := 0; shape <= 9; shape++ {
 			out = append(out, reqSpec{Method: "POST", H: http.Header{hOrigin: {o}}, Shape: shape},
 				reqSpec{Method: "OPTIONS", H: http.Header{hOrigin: {o}}, Shape: shape})
+			if shape == 0 || shape >= 6 {
+				out = append(out, reqSpec{Method: "PUT", H: http.Header{hOrigin: {o}}, Shape: shape}, reqSpec{Method: "DELETE", H: http.Header{hOrigin: {o}}, Shape: shape},
+					reqSpec{Method: "GET", H: http.Header{hOrigin: {o}}, Shape: shape})
+			}
 		}
 	}
 	return out
@@ -796,7 +814,14 @@ func cmdServe(args []string) {
 		} else {
 			var err error
 			if live != nil && nth%2 == 0 {
-				m, err = live, live.Reconfigure(cfg)
+				if c := live.Config(); c != nil && nth%4 == 0 {
+					// read - edit in place - write back: the value Config() returned, overwritten field by field, handed to
+					// Reconfigure (the same pointer the middleware gave out)
+					*c = *cloneConfig(cfg)
+					m, err = live, live.Reconfigure(c)
+				} else {
+					m, err = live, live.Reconfigure(cfg)
+				}
 				reused++
 			} else if nth%3 == 1 {
 				// Wrap BEFORE the middleware is configured: zero value, Wrap, then Reconfigure
